@@ -237,6 +237,9 @@ func Packet(r *rand.Rand, maxOpts int) (*dhcpv4.DHCPv4, *ref4.P4) {
 	}
 	p.NumSeconds = uint16(r.UintN(65536))
 	p.Flags = uint16(r.UintN(65536))
+	if r.IntN(5) == 0 { // single bits (0x8000 is the broadcast bit; 0x0080 is what it looks like in the wrong byte order)
+		p.Flags = 1 << r.UintN(16)
+	}
 	if r.IntN(2) == 0 {
 		p.Flags &= 0x8000
 	}
@@ -301,6 +304,16 @@ func Packet(r *rand.Rand, maxOpts int) (*dhcpv4.DHCPv4, *ref4.P4) {
 	e.HLen = byte(hl)
 	e.CHAddr = append([]byte{}, hw...)
 	p.ServerHostName = nameNoNul(r, 63)
+	if r.IntN(12) == 0 {
+		// a server name spelled as an address (PXE setups do that), a next-server field left unset, in a reply
+		p.ServerHostName = []string{"10.0.0.1", "192.168.1.254", "255.255.255.255", "0.0.0.0", "2001:db8::1", "tftp.example.org"}[r.IntN(6)]
+		if r.IntN(3) != 0 {
+			p.ServerIPAddr, e.SI = nil, [4]byte{}
+		}
+		if r.IntN(3) != 0 {
+			p.OpCode, e.Op = dhcpv4.OpcodeBootReply, 2
+		}
+	}
 	e.SName = p.ServerHostName
 	p.BootFileName = nameNoNul(r, 127)
 	e.File = p.BootFileName
